@@ -236,6 +236,16 @@ class ExprMixin:
                 head, tail = a.value.split(specs[0])
                 self.emit("percent_format", node, fmt=a, operand=b)
                 return StrV([head, (b, ("r" if specs[0] == "%r" else "") + "%"), tail])
+        if sym in ("-", "&", "|", "^") and isinstance(a, SetV) and isinstance(b, (SetV, ListV)) and a.concrete() and b.concrete():
+            ka = {x.key(): x for x in a.items}
+            kb = {x.key(): x for x in b.items}
+            if sym == "-":
+                return SetV([v for k, v in ka.items() if k not in kb])
+            if sym == "&":
+                return SetV([v for k, v in ka.items() if k in kb])
+            if sym == "|":
+                return SetV(list(ka.values()) + [v for k, v in kb.items() if k not in ka])
+            return SetV([v for k, v in ka.items() if k not in kb] + [v for k, v in kb.items() if k not in ka])
         if sym == "+":
             if isinstance(a, (StrV, Const)) and isinstance(b, (StrV, Const)) and \
                     (a.kind == "str" and b.kind == "str"):
@@ -683,7 +693,9 @@ class ExprMixin:
             if gi == 0:
                 first_iter.append(it)
             concrete = isinstance(it, (ListV, TupleV, SetV, DictV)) and it.concrete() or \
-                (isinstance(it, Const) and isinstance(it.value, (str, tuple, bytes)))
+                (isinstance(it, Const) and isinstance(it.value, (str, tuple, bytes))) or \
+                (isinstance(it, Term) and it.op in ("items", "enumerate") and it.args
+                 and isinstance(it.args[0], (ListV, TupleV, SetV, DictV)) and it.args[0].concrete())
             if concrete:
                 for item in self.iterate(it, node):
                     self.assign(g.target, item, inner, node)
